@@ -343,7 +343,8 @@ func (m *urlModule) createURLPrototype() *goja.Object {
 		}
 		return ""
 	}, func(u *nodeURL, arg goja.Value) {
-		u.url.RawQuery = arg.String()
+		// one leading '?' is not part of the query
+		u.url.RawQuery = strings.TrimPrefix(arg.String(), "?")
 		fixRawQuery(u.url)
 		if u.searchParams != nil {
 			u.searchParams = parseSearchQuery(u.url.RawQuery)
